@@ -317,6 +317,11 @@ void bn_read_str(bn_t a, const char *str, size_t len, uint_t radix) {
 		return;
 	}
 
+	/* The empty string is zero (and str[0] is not part of it). */
+	if (len == 0) {
+		return;
+	}
+
 	j = 0;
 	if (str[0] == '-') {
 		j++;
